@@ -49,7 +49,7 @@ PROPS = {
         ns="PrologVerif.C03",
         streams=[dict(name="c03.force", quick=6000, thorough=80000)],
         rule="c03.force: random promise TREES (Delay with 1..3 alternatives, cut to an ancestor - or, in a malformed share, to a non-ancestor / never-allocated parent -, catch with handler tables and the disarm/re-arm shape of the fixed Catch, repeat, success/failure/error leaves, trace and flag side effects) are built from the real constructors and forced on the real trampoline; the model of Force must produce the same result, iteration count and thunk trace; the recursive reference search (Spec/DFS) judges result and trace. Non-trivial: the tree contains a cut or a catch.",
-        level_text="Proof (trampoline level; whole-program refinement staged in C01): Force/child/popUntil are modelled in Lean with pointer identity as ids; theorems for ALL stacks: a cut leaves exactly the exhausted parent marker plus the untouched older part of the stack (C03_cut_pops_exactly), a later cut of the same clause stops at the marker (C03_second_cut_same_clause - false on the pinned tree, defect D21 fixed), a cut only ever removes the newest part of the stack. Tied to the code by c03.force (real trampoline vs model, reference depth-first search with cut barrier as oracle).",
+        level_text="Proof (trampoline level; whole-program refinement staged in C01): Force/child/popUntil are modelled in Lean with pointer identity as ids; C03_force_refines_dfs (= force_dfs): for EVERY well-scoped promise tree, on top of any stack, with no bound on size or depth, the trampoline finishes with the result, the thunk evaluation order and the side effects of the recursive reference search with cut barrier and catch (Spec/DFS). Further, for ALL stacks: a cut leaves exactly the exhausted parent marker plus the untouched older part of the stack (C03_cut_pops_exactly), a later cut of the same clause stops at the marker (C03_second_cut_same_clause - false on the pinned tree, defect D21 fixed), a cut only ever removes the newest part of the stack. Tied to the code by c03.force (real trampoline vs model, reference depth-first search with cut barrier as oracle).",
         level_note="Trusted: Lean kernel; the hand-written model of promise.go (checked by differential runs on random promise trees incl. malformed cut parents); Go closures are defunctionalised; the refinement of the VM (exec/clauses.call/Call) onto promise trees and the once/\\+/if-then-else corollaries are checked by the c03.answers stream and stated in C01, not yet proved end to end.",
         technique="Lean 4 theorems about a model of the Force trampoline (ids for pointer identity) + correspondence on random promise trees with a recursive reference search as oracle",
         trusted=["modelled (hand-written, correspondence-checked): engine/promise.go Force, child, popUntil, recover, cut/repeat/catch constructors",
